@@ -63,7 +63,22 @@ def outcome(r):
             left_at = e["t"]
     if connected_at < 0 and r.final["state"] == "CONNECTED" and healthy_from < 0:
         connected_at = 0
-    return {"scenario": r.name, "healthy_from": healthy_from, "connected_at": connected_at, "bound": heal_b,
+    # was the spa reachable throughout the discovery that ended in the last SPA_NOT_FOUND?
+    nf_reach = "n/a"
+    t_nf = max([e["t"] for e in r.log if e["k"] == "deliver" and e["ev"] == "SPA_NOT_FOUND"], default=None)
+    if t_nf is not None:
+        t_ls = max([e["t"] for e in r.log if e["k"] == "deliver" and e["ev"] == "LOCATING_STARTED" and e["t"] <= t_nf], default=0)
+        bad, m = False, "ok"
+        for (t, a, arg) in sorted(r.script, key=lambda x: x[0]):
+            if a != "net":
+                continue
+            tt = int(t * 1000)
+            if tt <= t_ls:
+                m = "bad" if arg in ("blackout", "lossy", "rferr") else "ok"
+            elif tt <= t_nf and arg in ("blackout", "lossy", "rferr"):
+                bad = True
+        nf_reach = "spa-unreachable" if (bad or m == "bad") else "spa-reachable"
+    return {"scenario": r.name, "nf_discovery": nf_reach, "healthy_from": healthy_from, "connected_at": connected_at, "bound": heal_b,
             "final": r.final["state"], "pump_alive": bool(r.final["pump_alive"]), "mirrors": bool(r.final.get("block_equal", False)),
             "out_from": out_from, "left_at": left_at, "out_len": out_len, "out_bound": out_b, "configured": True}
 
@@ -94,7 +109,7 @@ def run(ctx):
         run_ = runs[idx]
         sig = {"clause": why}
         if why.startswith("not-connected") and r_["final"] == "NOT_FOUND":
-            sig = {"clause": "stuck-in-state", "state": "NOT_FOUND"}
+            sig = {"clause": "stuck-in-state", "state": "NOT_FOUND", "discovery": r_["nf_discovery"]}
         elif why.startswith("not-connected"):
             sig["final"] = r_["final"]
         ctx.violation(sig, {"record": r_, "script": run_.script, "susp": run_.susp,
